@@ -799,6 +799,20 @@ func (g *Gen) sObjOps() []Stmt {
 		k := []string{"v", "fresh", "k1"}[g.n(3)]
 		return []Stmt{Set(Ix(ref(o), k), g.immune(KInt)), Emit(CN("rawget", ref(o), S(k)), CN("rawget", ref(o), S("set_"+k)))}
 	case 10:
+		if g.chance(2) {
+			// a float key with an integer value denotes the integer key: writing
+			// t[2.0] when the raw field t[2] exists is a raw update (no __newindex),
+			// reading it finds the field (no __index)
+			g.feat("float-key-normalised")
+			k := int64(2 + g.n(3))
+			fk := &Float{V: float64(k)}
+			return []Stmt{
+				Do1(CN("rawset", ref(o), I(k), I(7))),
+				Set(Ix(ref(o), fk), g.immune(KInt)),
+				Emit(CN("rawget", ref(o), I(k)), CN("rawget", ref(o), fk), CN("rawget", ref(o), S("set_"+itoa(int(k)))), B("==", Ix(ref(o), fk), Ix(ref(o), I(k))), Dot("math", "type")),
+				Emit(C(Dot("math", "type"), P(CN("next", Tab(FE(fk, T())))))),
+			}
+		}
 		return []Stmt{Emit(CN("tostring", ref(o)))}
 	default:
 		return []Stmt{Emit(B("==", CN("getmetatable", ref(o)), CN("getmetatable", ref(o2))), CN("type", CN("getmetatable", ref(o))))}
